@@ -11,6 +11,7 @@ import z3
 from vxlib import sweep
 from vxlib.symx import And, Or, Not, Atom, SymTable, SymInt, OutOfDomain
 from vxlib.symx.values import mkb, W
+from vxlib.paths import REPO_PREFIX
 
 PROPERTY = 'C18'
 STUBS = ['struct.unpack model', 'enum lookup forks over the members of the (swapped) enum class',
@@ -51,7 +52,7 @@ class RecTable(SymTable):
 
     def _rec(self):
         f = sys._getframe(2)
-        while f is not None and not f.f_code.co_filename.startswith('/repo/'):
+        while f is not None and not f.f_code.co_filename.startswith(REPO_PREFIX):
             f = f.f_back
         _state['used'].add(('errno', f.f_code.co_name if f is not None else '?'))
 
@@ -94,7 +95,7 @@ class _RecInt(int):
 
     def _sx_on_use(self):
         f = sys._getframe(2)
-        while f is not None and not f.f_code.co_filename.startswith('/repo/'):
+        while f is not None and not f.f_code.co_filename.startswith(REPO_PREFIX):
             f = f.f_back
         _state['used'].add(('sol_socket', f.f_code.co_name if f is not None else '?'))
 
@@ -155,7 +156,7 @@ def _window(ctx, name, a, r, tables):
         k = plat_classes.get(id(cls))
         if k is not None and not aa and not kw:
             f = sys._getframe(1)
-            while f is not None and not f.f_code.co_filename.startswith('/repo/'):
+            while f is not None and not f.f_code.co_filename.startswith(REPO_PREFIX):
                 f = f.f_back
             _state['used'].add((k, f.f_code.co_name if f is not None else '?'))
         return real_call(cls, value, *aa, **kw)
